@@ -112,7 +112,7 @@ macro_rules! eager {
                             err = Some(format!("start() {:?} / path() {:?} {:?} disagree with alignment() {:?}", s, ps, ops, aln));
                             break;
                         }
-                        let mut rops = vec![];
+                        let mut rops = vec![Ins, Match]; // documented: existing data is cleared beforehand
                         let prs = ms.path_reverse(&mut rops);
                         rops.reverse();
                         if prs != ps || rops != ops {
@@ -124,7 +124,7 @@ macro_rules! eager {
                     None => break,
                 },
                 2 => {
-                    let mut ops = vec![];
+                    let mut ops = vec![Subst; 2]; // documented: existing data is cleared beforehand
                     match ms.next_path(&mut ops) {
                         Some((s, e, d)) => {
                             if !ms.alignment(&mut aln) {
@@ -141,7 +141,7 @@ macro_rules! eager {
                     }
                 }
                 3 => {
-                    let mut rops = vec![];
+                    let mut rops = vec![Del, Ins, Match]; // documented: existing data is cleared beforehand
                     match ms.next_path_reverse(&mut rops) {
                         Some((s, e, d)) => {
                             if !ms.alignment(&mut aln) {
@@ -264,13 +264,26 @@ impl C10 {
         use bio::pattern_matching::myers::{long, Myers};
         let m = p.len();
         let b = cfg.builder();
-        let mut s64: Option<Myers<u64>> = if m <= 64 { Some(b.build_64(p)) } else { None };
-        let mut s8: Option<Myers<u8>> = if m <= 8 { Some(b.build::<u8, _, _>(p)) } else { None };
-        let mut s16: Option<Myers<u16>> = if m <= 16 && m > 8 { Some(b.build::<u16, _, _>(p)) } else { None };
-        let mut s32: Option<Myers<u32>> = if m <= 32 && m > 16 { Some(b.build::<u32, _, _>(p)) } else { None };
-        let mut l8: long::Myers<u8> = b.build_long::<u8, _, _>(p);
-        let mut l64: long::Myers<u64> = b.build_long_64(p);
-        let mut l16: long::Myers<u16> = b.build_long::<u16, _, _>(p);
+        // construction is monitored too: a panicking builder is a violation, not a harness error
+        let built = guard(|| {
+            (
+                if m <= 64 { Some(b.build_64(p)) } else { None },
+                if m <= 8 { Some(b.build::<u8, _, _>(p)) } else { None },
+                if m <= 16 && m > 8 { Some(b.build::<u16, _, _>(p)) } else { None },
+                if m <= 32 && m > 16 { Some(b.build::<u32, _, _>(p)) } else { None },
+                b.build_long::<u8, _, _>(p),
+                b.build_long_64(p),
+                b.build_long::<u16, _, _>(p),
+            )
+        });
+        ctx.eval(1);
+        let (mut s64, mut s8, mut s16, mut s32, mut l8, mut l64, mut l16): (Option<Myers<u64>>, Option<Myers<u8>>, Option<Myers<u16>>, Option<Myers<u32>>, long::Myers<u8>, long::Myers<u64>, long::Myers<u16>) = match built {
+            Ok(x) => x,
+            Err(e) => {
+                ctx.violation(&format!("myers:construction-panic:{}", panic_site(&e)), Obj::new().b("pattern", p).d("equality", cfg).s("what", &e).done());
+                return;
+            }
+        };
         let mut flav = [0u64; 5];
         for (si, (t, k)) in searches.iter().enumerate() {
             let k = (*k).min(255);
